@@ -117,7 +117,7 @@ def run(ck):
     ck.rule = ("ThresholdOptimizer models: fitted on every Valid TLC dataset for a seeded sample of configurations (pmf clauses on a scrambled query set with duplicates and "
                "off-level scores, 12 seeds; frequency clause on a sub-sample); EG models: fits of C08 (classification) and BoundedGroupLoss regression fits without the LP step")
     # ---- thresholder
-    cases, jobs, recs = T.explore(ck, want_c10=True, per_case=16 if ck.quick else 48)
+    cases, jobs, recs = T.explore(ck, want_c10=True, per_case=12 if ck.quick else 48, quick_gs=[2, 3, 10])
     nq = nfrac = ndet = 0
     for (case, conf, *_), r in zip(jobs, recs):
         if "c10" not in r:
